@@ -250,7 +250,7 @@ fn timestamp(t: &mut Tape) -> u64 {
 }
 
 /// identity for objects written with hash-object: passes fsck by construction
-fn gen_ident(t: &mut Tape) -> Ident {
+fn gen_ident(t: &mut Tape, quirks: bool) -> Ident {
     let mut i = Ident {
         name: ident_name(t),
         email: ident_email(t),
@@ -259,10 +259,14 @@ fn gen_ident(t: &mut Tape) -> Ident {
         quirk: None,
     };
     // rare: values that `git mktag` / `git fsck --strict` accept although git itself never writes them
-    if t.chance(3) {
+    // (only in "quirk worlds", see `case_world`)
+    if !quirks {
+        return i;
+    }
+    if t.chance(8) {
         i.tz = t.pick(&["+0099", "-0160", "+0060", "-1275"]).to_string();
         i.quirk = Some(QUIRK_TZ);
-    } else if t.chance(3) {
+    } else if t.chance(8) {
         if t.bool() {
             i.email.push(b' ');
         } else {
@@ -382,7 +386,7 @@ fn gen_message(t: &mut Tape, allow_nul: bool) -> (Vec<u8>, &'static str) {
     }
 }
 
-fn gen_commit_spec(t: &mut Tape, trees: &[String], commits: &[String]) -> CommitSpec {
+fn gen_commit_spec(t: &mut Tape, trees: &[String], commits: &[String], quirks: bool) -> CommitSpec {
     let mut classes = Vec::new();
     let tree = t.pick(trees).clone();
     let np = if commits.is_empty() { 0 } else { t.weighted(&[3, 4, 3, 1]) };
@@ -390,8 +394,8 @@ fn gen_commit_spec(t: &mut Tape, trees: &[String], commits: &[String]) -> Commit
     if np >= 2 {
         classes.push("two-or-more-parents");
     }
-    let author = gen_ident(t);
-    let committer = if t.chance(100) { author.clone() } else { gen_ident(t) };
+    let author = gen_ident(t, quirks);
+    let committer = if t.chance(100) { author.clone() } else { gen_ident(t, quirks) };
     classes.extend(author.quirk);
     classes.extend(committer.quirk);
     let encoding = if t.chance(60) {
@@ -445,7 +449,7 @@ fn pgp_block(t: &mut Tape) -> Vec<u8> {
 
 const TAG_NAMES: &[&str] = &["v1.0", "v2.39.5-rc1", "release/2024", "a", "\u{e4}\u{f6}\u{fc}", "v1.0.lock2", "x_y-z+w", "1"];
 
-fn gen_tag_spec(t: &mut Tape, targets: &[(String, &'static str)], via_mktag: bool) -> TagSpec {
+fn gen_tag_spec(t: &mut Tape, targets: &[(String, &'static str)], via_mktag: bool, quirks: bool) -> TagSpec {
     let mut classes = Vec::new();
     let (target, kind) = t.pick(targets).clone();
     let name: Vec<u8> = if t.chance(200) {
@@ -457,7 +461,7 @@ fn gen_tag_spec(t: &mut Tape, targets: &[(String, &'static str)], via_mktag: boo
         }
         n
     };
-    let name = if t.chance(3) {
+    let name = if quirks && t.chance(10) {
         classes.push(QUIRK_DASH);
         let mut n = b"-".to_vec();
         n.extend_from_slice(&name);
@@ -466,14 +470,14 @@ fn gen_tag_spec(t: &mut Tape, targets: &[(String, &'static str)], via_mktag: boo
         name
     };
     let tagger = if via_mktag || t.chance(100) {
-        let i = gen_ident(t);
+        let i = gen_ident(t, quirks);
         classes.extend(i.quirk);
         Some(i)
     } else {
         classes.push("tag-without-tagger");
         None
     };
-    let body = if t.chance(6) {
+    let body = if quirks && t.chance(16) {
         classes.push("tag-ends-after-headers");
         None
     } else {
@@ -968,6 +972,10 @@ fn git_raw_date(b: &[u8]) -> String {
 fn case_world(t: &mut Tape, c: &mut Case) {
     let world = infra!(c, FastWorld::new("c02"), "world");
     let git = &world.git;
+    // about one world in seven also contains values that git accepts (mktag, fsck --strict) but never writes itself;
+    // these are the regions of the known findings, kept apart so that the other worlds are free of them
+    let quirks = t.chance(36);
+    c.label_if(quirks, "world-with-accepted-but-unusual-values");
     let mut objects: Vec<(String, Origin)> = Vec::new();
 
     // (blobs need not exist for mktree --missing; tags point at trees, commits and tags only)
@@ -1090,7 +1098,7 @@ fn case_world(t: &mut Tape, c: &mut Case) {
     let mut paths = String::new();
     for i in 0..n_hc {
         // parents can only be commits that exist already (earlier batches)
-        let spec = gen_commit_spec(t, &trees, &commits);
+        let spec = gen_commit_spec(t, &trees, &commits, quirks);
         let p = world.scratch.join(format!("c{i}"));
         infra!(c, std::fs::write(&p, spec.bytes()), "write commit file");
         paths.push_str(&format!("{}\n", p.display()));
@@ -1117,7 +1125,7 @@ fn case_world(t: &mut Tape, c: &mut Case) {
     targets.extend(commits.iter().take(6).map(|c| (c.clone(), "commit")));
     let n_mt = t.range(1, 2);
     for _ in 0..n_mt {
-        let spec = gen_tag_spec(t, &targets, true);
+        let spec = gen_tag_spec(t, &targets, true, quirks);
         let (ok, out, err) = infra!(c, git.try_run(["mktag"], Some(&spec.bytes())), "git mktag");
         if !ok {
             let e = String::from_utf8_lossy(&err).to_string();
@@ -1136,7 +1144,7 @@ fn case_world(t: &mut Tape, c: &mut Case) {
     let mut specs = Vec::new();
     let mut paths = String::new();
     for i in 0..n_ht {
-        let spec = gen_tag_spec(t, &targets, false);
+        let spec = gen_tag_spec(t, &targets, false, quirks);
         let p = world.scratch.join(format!("t{i}"));
         infra!(c, std::fs::write(&p, spec.bytes()), "write tag file");
         paths.push_str(&format!("{}\n", p.display()));
@@ -1431,7 +1439,7 @@ fn case_world(t: &mut Tape, c: &mut Case) {
 
     if let Some((mut sig, msg)) = failure {
         // development aid: make classified failures "unknown" so that the runner writes (shrunk) case files for them
-        if !sig.is_empty() && std::env::var_os("C02_UNKNOWN").is_some() {
+        if !sig.is_empty() && std::env::var("C02_UNKNOWN").map_or(false, |s| s == sig) {
             sig.push_str("-x");
         }
         c.fail_sig(&sig, msg);
@@ -1473,7 +1481,7 @@ impl FastWorld {
     }
 }
 
-fn main() {
+pub fn main() {
     let mut ck = Check::new("C02", "exploration");
     ck.rule("One case = one scratch repository with 20..60 objects created by real git: trees (mktree; names over bytes around '/', all five modes), commits by commit-tree (generated names incl. unicode and latin1, four date formats, -m/-F/stdin messages, 0..3 parents, optional i18n.commitEncoding), commits by hash-object in git's canonical layout (encoding, gpgsig/mergetag/unknown extra headers, single- and multi-line with empty continuation lines, messages: empty, plain, no trailing LF, unicode, binary, header-like), tags by mktag and by hash-object (no tagger, PGP block, no body). Non-trivial: the world contains an object with a multi-line header, an empty continuation line, no tagger, no trailing newline, >=2 parents or non-UTF-8 bytes. Distinct by the hash of all object bytes of the world.");
     ck.assume(&format!(
